@@ -4,6 +4,7 @@ package main
 import (
 	"bytes"
 	"context"
+	"encoding/json"
 	"fmt"
 	"io"
 	stdlog "log"
@@ -349,7 +350,11 @@ func c14sites(c *Ctx) {
 		for round := 0; round < 3; round++ { // again from the same call site: a later record must be attributed like the first
 		want0 := false
 		if round == 1 && skipParent != nil {
-			// the per-call wrapper idiom: WithSkip(n) is evaluated again (it keeps one child per n; the count stays n)
+			// the per-call wrapper idiom: WithSkip(n) is evaluated again (it keeps one child per n; the count is n again,
+			// also when somebody gave that child another count in between)
+			if te, ok := target.(*slog.Entry); ok && idx%2 == 0 {
+				te.SetSkip(cl.skip + 2)
+			}
 			ch := skipParent.WithSkip(cl.skip)
 			ch.SetWriter(w).SetErrorWriter(w)
 			target = ch
@@ -391,6 +396,23 @@ func c14sites(c *Ctx) {
 			}
 		}
 		d, err := decodeRecord(cl.f, data, true, true)
+		if err != nil && cl.f == FJSON && strings.Contains(e.name, "attribute named caller") {
+			// the record holds the member name caller twice (the attribute, then the library's): read it the way
+			// encoding/json does - the last one counts
+			var m map[string]any
+			if e2 := json.Unmarshal(bytes.TrimSpace(data), &m); e2 == nil {
+				d, err = &decoded{Caller: map[string]string{}}, nil
+				if cm, ok := m["caller"].(map[string]any); ok {
+					for k, v := range cm {
+						if f, isNum := v.(float64); isNum {
+							d.Caller[k] = strconv.Itoa(int(f))
+						} else {
+							d.Caller[k] = fmt.Sprint(v)
+						}
+					}
+				}
+			}
+		}
 		if err != nil {
 			c.R.Violation(idx, "decode", sig("decode"), err.Error()+": "+q(clip(string(evs[0].Data), 300)), desc)
 			return
